@@ -68,6 +68,7 @@ type Unit struct {
 	litOfVar  map[*types.Var]*ast.FuncLit
 	inlineStack []*inlineFrame
 	mentionsHeld bool
+	curSt     *State // state of the statement being executed (for binding long terms)
 }
 
 type deferred struct {
@@ -486,6 +487,30 @@ func (u *Unit) readGlobal(st *State, v *types.Var) Term {
 		}
 		u.c.declareFun(name, "() "+u.c.sortOf(v.Type()))
 		t := Term{S: name, T: v.Type()}
+		// []byte{'k', 'i', ...}: length and content known
+		if cl, ok := ast.Unparen(u.eng.globalInit(v)).(*ast.CompositeLit); ok {
+			if sl, isSlice := v.Type().Underlying().(*types.Slice); isSlice && len(cl.Elts) <= 64 {
+				if bits, signed, isInt := intInfo(sl.Elem()); isInt {
+					okAll := true
+					var vals []*big.Int
+					for _, el := range cl.Elts {
+						k, ok := u.eng.constOf(el)
+						if !ok {
+							okAll = false
+							break
+						}
+						vals = append(vals, k)
+					}
+					if okAll {
+						u.c.declareRaw("len_"+name, fmt.Sprintf("(assert (and (= (s.len %s) %s) (> (s.ref %s) 0) (< (s.ref %s) alloc@0) (= (s.off %s) %s)))", name, u.c.idxConst(int64(len(vals))), name, name, name, u.c.idxConst(0)))
+						h := u.elemHeap(sl.Elem())
+						for i, k := range vals {
+							st.assume(eq(fmt.Sprintf("(select (select %s (s.ref %s)) %s)", u.heapCur(u.entryOr(st), h), name, u.c.idxConst(int64(i))), u.c.constInt(k, bits, signed)))
+						}
+					}
+				}
+			}
+		}
 		// []byte("literal"): the length is known
 		if call, ok := ast.Unparen(u.eng.globalInit(v)).(*ast.CallExpr); ok && len(call.Args) == 1 {
 			if bl, ok := ast.Unparen(call.Args[0]).(*ast.BasicLit); ok && bl.Kind == token.STRING {
@@ -698,11 +723,26 @@ func (u *Unit) funcRef(f *types.Func) Term {
 	return Term{S: name, T: f.Type()}
 }
 
+// mkParts splits a constructor application (mk_S a0 .. an) into its arguments.
+func mkParts(s, name string) ([]string, bool) {
+	if !strings.HasPrefix(s, "(mk_"+name+" ") {
+		return nil, false
+	}
+	parts := splitSexp(s[1 : len(s)-1])
+	if len(parts) < 2 {
+		return nil, false
+	}
+	return parts[1:], true
+}
+
 // fieldGet selects field i of struct-valued term.
 func (u *Unit) fieldGet(base Term, i int) Term {
 	st := base.T.Underlying().(*types.Struct)
 	name := u.c.sortOf(base.T)
 	f := st.Field(i)
+	if parts, ok := mkParts(base.S, name); ok && len(parts) == st.NumFields() {
+		return Term{S: parts[i], T: f.Type()}
+	}
 	return Term{S: fmt.Sprintf("(%s.%s %s)", name, fldName(f, i), base.S), T: f.Type()}
 }
 
@@ -710,12 +750,24 @@ func (u *Unit) fieldGet(base Term, i int) Term {
 func (u *Unit) fieldSet(base Term, i int, val string) Term {
 	stt := base.T.Underlying().(*types.Struct)
 	name := u.c.sortOf(base.T)
+	if parts, ok := mkParts(base.S, name); ok && len(parts) == stt.NumFields() {
+		np := append([]string(nil), parts...)
+		np[i] = val
+		return Term{S: "(mk_" + name + " " + strings.Join(np, " ") + ")", T: base.T}
+	}
+	b := base.S
+	if len(b) > 60 && u.curSt != nil {
+		// bind the base once instead of repeating it for every field
+		n := u.c.fresh("rec", name)
+		u.curSt.assume(eq(n, b))
+		b = n
+	}
 	var fs []string
 	for k := 0; k < stt.NumFields(); k++ {
 		if k == i {
 			fs = append(fs, val)
 		} else {
-			fs = append(fs, fmt.Sprintf("(%s.%s %s)", name, fldName(stt.Field(k), k), base.S))
+			fs = append(fs, fmt.Sprintf("(%s.%s %s)", name, fldName(stt.Field(k), k), b))
 		}
 	}
 	return Term{S: "(mk_" + name + " " + strings.Join(fs, " ") + ")", T: base.T}
